@@ -34,13 +34,12 @@ Qed.
 Lemma load_registers_named s n imp initf o s' :
   perm_oracle o -> wf_st lower s ->
   owner_load lower world s n imp initf o = (s', Ok 0) ->
-  exists c, lower (cname c) = lower n /\ Permutation (s_cbs s') (s_cbs s ++ [c]).
+  exists c, lower (cname c) = lower (strip_py n) /\ Permutation (s_cbs s') (s_cbs s ++ [c]).
 Proof.
-  intros Ho Hw E. unfold owner_load in E.
-  destruct (get_callback lower (s_cbs s) n); [inversion E|].
-  unfold load_plugin_module in E. destruct (find_spec lower world n) as [p|] eqn:Ef; [|inversion E].
-  destruct (find_spec_named n p Ef) as [_ En].
-  destruct imp as [|[q|q|]]; try (inversion E; fail).
+  intros Ho Hw E. unfold owner_load in E. cbv zeta in E.
+  destruct (get_callback lower (s_cbs s) (strip_py n)); [inversion E|].
+  destruct (load_plugin_module lower world (strip_py n) imp) as [p| |] eqn:El; try (inversion E; fail).
+  apply load_plugin_module_mod in El. destruct (find_spec_named (strip_py n) p El) as [_ En].
   unfold load_plugin_class in E. destruct initf; [inversion E|].
   set (c := mk_cb (s_next s) p) in *.
   assert (Hnd : NoDup (ids (s_cbs s ++ [c]))) by (apply (wf_nd_snoc lower (s_next s)); [exact Hw|reflexivity]).
@@ -67,4 +66,14 @@ Lemma lookup_example :
   option_map p_name (find_spec lower_ascii w_fam n_al) = Some nAl /\
   option_map p_name (find_spec lower_ascii w_fam n_ALPHA) = Some nAlpha /\
   option_map p_name (find_spec lower_ascii w_fam nAlpha) = Some nAlpha.
+Proof. vm_compute. repeat split. Qed.
+
+(* was finding C20.F26: the old module's reload() hook raises (imp = 3): handled like a failed import,
+   Alpha is kept; and Owner.load strips a `.py` suffix *)
+Definition nAlphaPy : str := nAlpha ++ [46; 112; 121].
+Lemma reload_hook_example :
+  let s := steps lower_ascii w_dot st0 [Boot nOwner id_oracle; Load nAlphaPy 0 false id_oracle] in
+  map cname (s_cbs s) = [nOwner; nAlpha] /\
+  let '(s', r) := owner_reload lower_ascii w_dot s nAlpha 3 false false id_oracle in
+  r = Raise OtherError /\ map cname (s_cbs s') = [nOwner; nAlpha] /\ s_dead s' = [].
 Proof. vm_compute. repeat split. Qed.
